@@ -2,6 +2,7 @@
 engine, reducer conformance (TraceReducer.tla) and observer evaluation (Obs_Cxx.tla) by TLC."""
 from __future__ import annotations
 
+import json
 import random
 
 from harness import tlc, tracecheck
@@ -62,6 +63,118 @@ def conform_reducer(chk, items, name="reducer"):
     return ok, drift
 
 
+def engine_lines(tr):
+    """The lines of a recorded execution that TraceEngine.tla consumes (first run only)."""
+    out = []
+    now0 = None
+    for r in tr:
+        if r.get("run", 1) != 1:
+            break
+        e = r["e"]
+        if e == "tick":
+            if now0 is None:
+                now0 = r["now"]
+            if "state" not in r or "wake_abs" not in r:
+                return None, None
+            out.append({"e": "tick", "tick": r["tick"], "now": r["now"], "state": r["state"], "pubs": r["pubs"],
+                        "wake_abs": r["wake_abs"]})
+        elif e == "step_end" and r["how"] != "cancelled":
+            out.append({"e": "end", "step": r["step"], "uid": r["uid"], "wid": r.get("wid", -1)})
+        elif e == "wait":
+            out.append({"e": "wait", "running": r["running"], "pending": r["pending"], "timeout_ms": r["timeout_ms"],
+                        "done": r["done"]})
+        elif e == "cmd":
+            c = list(r["cmd"])
+            if c[0] == "send":
+                c = ["send", c[1], c[2], c[3] or "*", int(c[4])]
+            elif c[0] == "advance":
+                c = ["advance", int(c[1])]
+            elif c[0] == "sleep":
+                c = ["sleep", int(c[1])]
+            elif c[0] == "release_freeze":
+                c = ["release_freeze", int(c[5])]
+            else:
+                c = [c[0]]
+            out.append({"e": "cmd", "cmd": c})
+        elif e == "outcome":
+            kind = {"completed": "result"}.get(r["kind"], r["kind"])
+            out.append({"e": "outcome", "kind": kind})
+            break
+    return now0, out
+
+
+def conform_engine(chk, items, name="engine"):
+    """Recorded executions vs Engine.tla, line by line (TraceEngine.tla; evidence, drift is a note).
+    One generated module per scenario program (Cfg/Prog are constants of Engine.tla)."""
+    from concurrent.futures import ThreadPoolExecutor
+    groups = {}
+    for (label, prog, ext, tr, sched) in items:
+        groups.setdefault(label, (prog, []))[1].append((tr, sched))
+    cap = 40 if chk.quick else 400
+    rng = random.Random(chk.seed + 11)
+    jobs = []
+    for gi, (label, (prog, trs)) in enumerate(sorted(groups.items())):
+        try:
+            d, dev, cfg = mc_module(chk, "te%d" % gi, prog, base="TraceEngine")
+        except AssertionError:
+            continue                     # program shape the design model does not render (documented in mc_module)
+        if len(trs) > cap:
+            trs = rng.sample(trs, cap)
+        traces = []
+        for (tr, sched) in trs:
+            now0, lines = engine_lines(tr)
+            if lines:
+                traces.append(({"now0": now0, "log": lines}, sched))
+        if traces:
+            jobs.append((gi, label, d, dev, traces))
+
+    def one(job):
+        gi, label, d, dev, traces = job
+        B = lambda b: "TRUE" if b else "FALSE"
+        lines = ["CONSTANTS", "  Cfg <- MC_Cfg", "  Prog <- MC_Prog", "  ExtMenu <- MC_ExtMenu", "  MaxExt = 99",
+                 "  MaxCancel = 99", "  TimeoutMs <- MC_TimeoutMs", "  WallEpoch = 0",
+                 "  Dev_MatchDoneWaiters = " + B(dev["match_done_waiters"]), "  Dev_WaitIndexOneBased = " + B(dev["wait_index_one_based"]),
+                 "  Dev_NoHandlersUnvalidated = " + B(dev["no_handlers_unvalidated"]), "  Dev_ClockMix = " + B(dev["clock_mix"]),
+                 "  TrackLog = FALSE", "INIT TraceInit", "NEXT TraceNext"]
+        (d / ("MC_te%d.cfg" % gi)).write_text("\n".join(lines) + "\n")
+        f = d / "traces.json"
+        f.write_text(json.dumps({"traces": [t for (t, _s) in traces]}))
+        res = tlc.run(d / ("MC_te%d.tla" % gi), d / ("MC_te%d.cfg" % gi), workdir=chk.work, deadlock=False, coverage=False,
+                      workers=2, timeout=900, env={"TRACE_FILE": str(f)})
+        return res
+
+    with ThreadPoolExecutor(max_workers=6) as ex:
+        results = list(ex.map(one, jobs))
+    ok = lines_ok = unsupported = 0
+    drift = []
+    for (gi, label, d, dev, traces), res in zip(jobs, results):
+        if res.error or res.violated:
+            chk.note("TraceEngine could not be evaluated on %s: %s" % (label, (res.error or res.violated)[:200]))
+            continue
+        chk.record_tlc("TraceEngine/" + label, res, count=False)
+        seen = {}
+        for v in res.prints:
+            if isinstance(v, tuple) and len(v) >= 4 and v[0] == "VERDICT":
+                seen[v[1]] = (v[2], v[3])
+        for i, (t, sched) in enumerate(traces, 1):
+            clause, at = seen.get(i, ("no_verdict", 0))
+            if clause == "ok":
+                ok += 1
+                lines_ok += len(t["log"])
+            elif clause.startswith("unsupported:"):
+                unsupported += 1
+                lines_ok += at - 1
+            else:
+                lines_ok += max(0, at - 1)
+                drift.append((label, clause, at, t["log"][at - 1] if 0 < at <= len(t["log"]) else None, sched))
+    for (label, clause, at, line, sched) in drift[:5]:
+        chk.note("conformance drift: the recorded execution is not a behaviour of Engine.tla -- %s at line %d of %s: %s (schedule %s)" % (
+            clause, at, label, json.dumps(line)[:300], sched_str(sched, 12)))
+    chk.add(engine_traces_validated=ok, engine_lines_matched=lines_ok, engine_trace_drift=len(drift),
+            engine_traces_with_unsupported_driver_action=unsupported)
+    return ok, drift
+
+
 def observe(chk, obs, items, kinds, extra=None, name=None, keep=None, tolerate=None):
     import copy
     """Evaluate specs/obs/Obs_<obs>.tla on the recorded logs restricted to the record kinds it reads."""
@@ -106,7 +219,7 @@ def _tla_op(op):
     return d
 
 
-def mc_module(chk, name, prog, ext_menu=(), max_ext=1, max_cancel=0, dev=None, wall_epoch=99000000):
+def mc_module(chk, name, prog, ext_menu=(), max_ext=1, max_cancel=0, dev=None, wall_epoch=99000000, base="EngineProps"):
     """Generate MC_<name>.tla/.cfg in chk.work from the same program dict the real engine runs."""
     import shutil
     from harness.tlaval import to_tla
@@ -127,18 +240,18 @@ def mc_module(chk, name, prog, ext_menu=(), max_ext=1, max_cancel=0, dev=None, w
                 "clock_mix": False}, **(dev or {}))
     d = chk.work / ("mc_" + name)
     d.mkdir(parents=True, exist_ok=True)
-    for f in ("Reducer.tla", "Engine.tla", "EngineProps.tla"):
+    for f in ("Reducer.tla", "Engine.tla", "EngineProps.tla", "TraceEngine.tla"):
         shutil.copy(SPECS / "engine" / f, d / f)
     menu = "{" + ", ".join(to_tla({"ty": t.rstrip("1"), "target": tg or "*", "k": 1 if t.endswith("1") else 0})
                            for (t, tg) in ext_menu) + "}"
     mod = """---- MODULE MC_%s ----
-EXTENDS EngineProps
+EXTENDS @BASE@
 MC_Cfg == %s
 MC_Prog == %s
 MC_ExtMenu == %s
 MC_TimeoutMs == %d
 ====
-""" % (name, to_tla(cfg), to_tla(P), menu, cfg["timeout_ms"])
+""".replace("@BASE@", base) % (name, to_tla(cfg), to_tla(P), menu, cfg["timeout_ms"])
     (d / ("MC_%s.tla" % name)).write_text(mod)
     return d, dev, cfg
 
@@ -247,6 +360,7 @@ def standard_run(chk, pid, families, kinds, key_of=None, nontrivial=None, extra=
     # the TLC invocations are independent: run them side by side (each pays ~10 s of JVM/JIT warm-up)
     pool = ThreadPoolExecutor(max_workers=6)
     f_conf = pool.submit(conform_reducer, chk, items) if conform else None
+    f_eng = pool.submit(conform_engine, chk, items) if conform else None
     f_obs = pool.submit(observe, chk, pid, items, kinds, extra, None, keep)
     plans = mc_plans(chk, pid)
     f_mc = [pool.submit(mc_run, chk, "%s_%s" % (pid, name), prog, list(dict.fromkeys(BASE_INV + inv)), props,
@@ -259,6 +373,8 @@ def standard_run(chk, pid, families, kinds, key_of=None, nontrivial=None, extra=
     verdicts = f_obs.result()
     if f_conf:
         f_conf.result()
+    if f_eng:
+        f_eng.result()
     seen = set()
     clauses = {}
     known_keys = {k["key"] for k in chk.known}
